@@ -340,6 +340,9 @@ func validateUTXO(index int, utxo *UTXO, sigs []map[uint16]*crypto.Signature, as
 			}
 			return utxo.Script.Validate(signers)
 		} else {
+			if index >= len(sigs) {
+				return fmt.Errorf("invalid signature map count %d for input %d", len(sigs), index)
+			}
 			for i, sig := range sigs[index] {
 				if int(i) >= len(utxo.Keys) {
 					return fmt.Errorf("invalid signature map index %d %d", i, len(utxo.Keys))
